@@ -62,12 +62,12 @@ TEXTS = {
         "technique": "differential runtime monitoring: partial open vs full open restricted to the range (steered + random ranges)",
     },
     "C12": {
-        "level_text": "Differential runtime monitor sync vs async: the async readers/writers (feature async, never compiled by the repo's tests) are driven by block_on over plain cursors and over an instrumented stream with short transfers and random Pending, on logical archives (all four writer x reader combinations, None outputs byte-compared, async output judged by the independent reader), foreign and library-written archives (full and range-filtered opens incl. tile bytes, read_directories twins), entry lists x 4 codecs (Directory and write_directories twins) and headers.",
+        "level_text": "Differential runtime monitor sync vs async: the async readers/writers (feature async, never compiled by the repo's tests) are driven by block_on over plain cursors and over an instrumented stream with short transfers and random Pending, on logical archives (all four writer x reader combinations, None outputs byte-compared, async output judged by the independent reader), foreign and library-written archives (full and range-filtered opens incl. tile bytes, read_directories twins), entry lists x 4 codecs (Directory and write_directories twins) and headers. Thorough repeats the quick-sized workload under ASan.",
         "level_note": "Trusted: the synchronous twin as oracle; futures::executor::block_on as executor.",
         "technique": "differential runtime monitoring of async twins against sync twins under Pending and short transfers",
     },
     "C13": {
-        "level_text": "Schedule-imposing monitor: stream wrappers impose transfer-size schedules (>=1 byte) and Pending patterns on one task; EVERY composition of n<=16 (quick) / 22 (thorough) bytes for None-encoded directories on read and write, every fixed chunk size / two-part split / random compositions for codec directories and headers, fixed chunks {1,2,3,7,64,4096} and random schedules on whole archives incl. leaf-spilling ones in 4 codecs, sync and async, and every Pending pattern over the first 12 polls; results must equal the unfragmented twin (values for readers, bytes for writers).",
+        "level_text": "Schedule-imposing monitor: stream wrappers impose transfer-size schedules (>=1 byte) and Pending patterns on one task; EVERY composition of n<=16 (quick) / 22 (thorough) bytes for None-encoded directories on read and write, every fixed chunk size / two-part split / random compositions for codec directories and headers, fixed chunks {1,2,3,7,64,4096} and random schedules on whole archives incl. leaf-spilling ones in 4 codecs, sync and async, and every Pending pattern over the first 12 polls; results must equal the unfragmented twin (values for readers, bytes for writers). Thorough repeats the quick-sized workload under ASan (async codec adapters, zstd C code).",
         "level_note": "Trusted: the instrumented streams (self-tested against std Cursor). Seeks are not fragmented and Interrupted is not injected (the property's schedule space).",
         "technique": "runtime monitoring under imposed fragmentation/Pending schedules (exhaustive for small inputs) against the unfragmented twin",
     },
@@ -82,7 +82,7 @@ TEXTS = {
         "technique": "fault injection at every stream-operation index (fail-stop) with a fault-free twin as oracle",
     },
     "C16": {
-        "level_text": "Pairwise byte-comparison monitor: each logical archive is built along nine histories reaching the same logical state (insertion orders, metadata key orders, detours, save+reopen midway with sync/async reopen, sync and async writer) and all outputs of a writer kind must be byte-identical; outputs are reopened and re-written (rewrite idempotence incl. stored coordinates); a cross-process phase has 6 separate OS processes (different hash-map seeds) serialise the same archives and compares fingerprints.",
+        "level_text": "Pairwise byte-comparison monitor: each logical archive is built along twelve histories reaching the same logical state (insertion orders, metadata key orders, detours, save+reopen midway with sync/async reopen, sync and async writer) and all outputs of a writer kind must be byte-identical; outputs are reopened and re-written (rewrite idempotence incl. stored coordinates); a cross-process phase has 6 separate OS processes (different hash-map seeds) serialise the same archives and compares fingerprints.",
         "level_note": "Trusted: byte equality only (no golden files). Six processes sample the space of hash seeds; they do not enumerate it.",
         "technique": "runtime monitoring by pairwise byte comparison across edit histories and OS processes",
     },
